@@ -191,6 +191,11 @@ def _required_cfi_directives(
                 # the procedure's initial rules (they do not describe the
                 # instructions being removed), so they stay with it.
                 procedure_directives.append(directive)
+            elif not block.size:
+                # An empty block has no instructions that its directives
+                # could describe: they apply to the code that follows and
+                # removing the block must not lose them.
+                append_to.append(directive)
 
     results.extend(procedure_directives)
     return results
